@@ -173,6 +173,11 @@ func (e *executor) Prepare(workflow *Workflow, workflowContext map[string][]byte
 			if !ok {
 				return nil, fmt.Errorf("could not find output id %q in output schema", outputID)
 			}
+			if outputSchemaData != nil && outputSchemaData.SchemaValue != nil {
+				if err := validateScopeRoot(outputSchemaData.SchemaValue); err != nil {
+					return nil, &ErrInvalidWorkflow{fmt.Errorf("invalid output schema for output %q (%w)", outputID, err)}
+				}
+			}
 			outputSchema = outputSchemaData
 		}
 		outputSchema, err = infer.OutputSchema(
@@ -234,8 +239,25 @@ func (e *executor) processInput(workflow *Workflow) (schema.Scope, error) {
 	if !ok {
 		return nil, fmt.Errorf("bug: unserialized input is not a scope")
 	}
+	if err := validateScopeRoot(typedInput); err != nil {
+		return nil, &ErrInvalidWorkflow{fmt.Errorf("invalid workflow input section (%w)", err)}
+	}
 	typedInput.ApplySelf()
 	return typedInput, nil
+}
+
+// validateScopeRoot makes sure the root of a scope written in a workflow file names one of the
+// scope's objects and that this object carries the ID it is filed under. Using a scope with a
+// dangling or mislabelled root panics inside the schema library.
+func validateScopeRoot(scope schema.Scope) error {
+	rootObject, ok := scope.Objects()[scope.Root()]
+	if !ok || rootObject == nil {
+		return fmt.Errorf("the root object %q is not among the scope's objects", scope.Root())
+	}
+	if rootObject.ID() != scope.Root() {
+		return fmt.Errorf("the root object is filed as %q but has the ID %q", scope.Root(), rootObject.ID())
+	}
+	return nil
 }
 
 func (e *executor) processSteps(
